@@ -5,7 +5,7 @@ CONSTANTS
   ExtraLen = 100
   Seed = 1
   NRand = 0
-  KeepHist = TRUE
+  KeepHist = FALSE
   KF_PowGrandparentBits = FALSE
 CONSTRAINT Book
 POSTCONDITION Post
